@@ -90,6 +90,8 @@ Used == {plan[d].name : d \in DOMAIN plan}
 TypesBefore(d) == {e \in 1..(d - 1) : e <= Len(plan) /\ plan[e].kind = "type" /\ ~plan[e].dup /\ plan[e].name # "main" /\ plan[e].ty # UNK}
 TypeOf(nm, d) == IF nm = "int" THEN INT ELSE plan[CHOOSE e \in TypesBefore(d) : plan[e].name = nm].ty
 TypeRefs(d) == {"int"} \cup {plan[e].name : e \in TypesBefore(d)}
+\* type DECLARATIONS keep nested (non-square) array types in the statement-structure configurations
+TypeDims == IF Slim THEN {<<>>, <<2>>, <<2, 3>>} ELSE {<<>>, <<2>>, <<3>>, <<2, 3>>}
 Dims == IF Slim THEN (IF Faults = {} THEN {<<>>} ELSE {<<>>, <<2>>}) ELSE {<<>>, <<2>>, <<3>>, <<2, 3>>}
 FaultOn(r) == fault = NoFault /\ r \in Faults
 
@@ -106,7 +108,7 @@ Entry(kind, nm, dims, base, ty, params, callable, dup) ==
 
 PlanType ==
   /\ phase = "plan" /\ Len(plan) < MaxDecls
-  /\ \E nm \in TypeNames \ Used, dims \in Dims, base \in TypeRefs(Len(plan) + 1) :
+  /\ \E nm \in TypeNames \ Used, dims \in TypeDims, base \in TypeRefs(Len(plan) + 1) :
        LET m == MkType(tys, dims, TypeOf(base, Len(plan) + 1), "type:" \o nm) IN
        /\ tys' = m.tys
        /\ plan' = Append(plan, Entry("type", nm, dims, base, m.ty, <<>>, FALSE, FALSE))
